@@ -172,10 +172,10 @@ def c05(run):
 
 def c07(run):
     t = run.tier == "thorough"
-    run.rule = ("model/infer for every f in AllWF(3) (thorough: AllWF(4)) and random 6-7 variable f; "
+    run.rule = ("model/infer for every f in AllWF(4) (65 536 functions) and random 6-7 variable f; "
                 "ModelOK/InferOK predicates; non-trivial = satisfiable non-constant f")
-    mc_bdd(run, "C07", 4 if t else 3)
-    s = record_and_validate(run, 4 if t else 3, "allwf", 0, "model", "allwf", shards=16)
+    mc_bdd(run, "C07", 4)
+    s = record_and_validate(run, 4, "allwf", 0, "model", "allwf", shards=16)
     record_and_validate(run, 7 if t else 6, "random", 5000 if t else 600, "model", "rand")
     import checks_cli
     checks_cli.cli_model_retain(run, "model")
@@ -185,10 +185,10 @@ def c07(run):
 
 def c20(run):
     t = run.tier == "thorough"
-    run.rule = ("retain_choice_bottom_up for every f in AllWF(3) (thorough: AllWF(4)) x {True,False,Any} and random "
+    run.rule = ("retain_choice_bottom_up for every f in AllWF(4) (65 536 functions) x {True,False,Any} and random "
                 "6-7 variable f; RetainOK predicate; non-trivial = non-constant f")
-    mc_bdd(run, "C20", 4 if t else 3)
-    s = record_and_validate(run, 4 if t else 3, "allwf", 0, "retain", "allwf", shards=16)
+    mc_bdd(run, "C20", 4)
+    s = record_and_validate(run, 4, "allwf", 0, "retain", "allwf", shards=16)
     record_and_validate(run, 7 if t else 6, "random", 5000 if t else 600, "retain", "rand")
     import checks_cli
     checks_cli.cli_model_retain(run, "retain")
